@@ -2135,7 +2135,16 @@ impl BytecodeVM {
             Op::Exp { dst, left, right } => {
                 let left_val = interp.coerce_to_number(self.get_reg(left))?;
                 let right_val = interp.coerce_to_number(self.get_reg(right))?;
-                self.set_reg(dst, JsValue::Number(math::powf(left_val, right_val)));
+                // ECMAScript Number::exponentiate: NaN exponent gives NaN, and so does
+                // a base of magnitude 1 with an infinite exponent (IEEE pow gives 1 there)
+                let result = if right_val.is_nan()
+                    || (right_val.is_infinite() && (left_val == 1.0 || left_val == -1.0))
+                {
+                    f64::NAN
+                } else {
+                    math::powf(left_val, right_val)
+                };
+                self.set_reg(dst, JsValue::Number(result));
                 Ok(OpResult::Continue)
             }
 
